@@ -260,26 +260,23 @@ Proof. apply bytes_at. Qed.
 Lemma reply_body_size k st m st' b : reply_body k st m = (st', Some b) ->
   hstate_ok st -> decoded_header m -> bytes (m_body m) -> (length b <= 1023)%nat /\ hstate_ok st'.
 Proof.
-  unfold hstate_ok. intros H Hs Hm Hb. destruct k; cbn [reply_body] in H.
-  - inversion H; subst. unfold general_body. rewrite !app_length, !be_enc_length. cbn. lia.
-  - inversion H; subst. rewrite !app_length, !be_enc_length. pose proof (phone_of_length m Hm). cbn [length]. lia.
-  - destruct (auth_code m); inversion H; subst. unfold general_body.
-    rewrite !app_length, !be_enc_length. cbn. lia.
-  - inversion H; subst. rewrite be_enc_length. split. lia.
+  unfold hstate_ok. intros H Hs Hm Hb. destruct k; unfold reply_body in H; cbv beta iota zeta in H.
+  - injection H as <- <-. split; auto. unfold general_body. rewrite !app_length, !be_enc_length. cbn [length]. lia.
+  - injection H as <- <-. split; auto. rewrite !app_length, !be_enc_length.
+    pose proof (phone_of_length m Hm). cbn [length]. lia.
+  - destruct (auth_code m); [|discriminate]. injection H as <- <-. split; auto. unfold general_body.
+    rewrite !app_length, !be_enc_length. cbn [length]. lia.
+  - injection H as <- <-. rewrite be_enc_length. split. lia.
     destruct (len (m_body m) <? 36); cbn [s_fname]; auto.
-  - inversion H; subst. clear H.
-    assert (X : (length (s_fname (if len (m_body m) <? 6 then st
-      else if negb (len (m_body m) =? 6 + at_ (m_body m) 0)
-           then {| s_mmid := s_mmid st; s_fnlen := at_ (m_body m) 0; s_fname := s_fname st; s_ftype := s_ftype st |}
-           else {| s_mmid := s_mmid st; s_fnlen := at_ (m_body m) 0;
-                   s_fname := sub (m_body m) 1 (1 + at_ (m_body m) 0);
-                   s_ftype := at_ (m_body m) (1 + at_ (m_body m) 0) |})) <= 255)%nat).
-    { destruct (len (m_body m) <? 6); auto.
+  - injection H as <- <-.
+    match goal with |- context [s_fname ?X] => set (st1 := X) end.
+    assert (X : (length (s_fname st1) <= 255)%nat).
+    { subst st1. destruct (len (m_body m) <? 6); auto.
       destruct (negb (len (m_body m) =? 6 + at_ (m_body m) 0)); cbn [s_fname]; auto.
       pose proof (sub_length_le (m_body m) 1 (1 + at_ (m_body m) 0)).
       pose proof (bytes_at0 _ Hb). lia. }
     split; auto. rewrite !app_length. cbn [length]. lia.
-  - inversion H; subst. cbn. split. lia. auto.
+  - injection H as <- <-. split; auto. cbn [length]. lia.
 Qed.
 
 (* ------------------------------------------------------------------------------------------ *)
